@@ -86,6 +86,7 @@ pub static N_FOREIGN: AtomicUsize = AtomicUsize::new(0);
 pub static QUIET_ALL: AtomicBool = AtomicBool::new(false);
 pub static N_MUNMAP: AtomicUsize = AtomicUsize::new(0);
 pub static N_MPROTECT: AtomicUsize = AtomicUsize::new(0);
+pub static N_MPROTECT_W: AtomicUsize = AtomicUsize::new(0);
 pub static N_FLUSH: AtomicUsize = AtomicUsize::new(0);
 /// when set, successful/failed mmap attempts that the policy refused are not logged one
 /// by one (65 537-attempt exhaustion) but counted
@@ -108,6 +109,7 @@ pub fn set_policy(p: Option<Policy>) {
         // policies count library calls from the moment they are installed
         N_MMAP.store(0, SeqCst);
         N_MPROTECT.store(0, SeqCst);
+        N_MPROTECT_W.store(0, SeqCst);
         OCC_USED.store(0, SeqCst);
         N_MUNMAP_POL.store(0, SeqCst);
     }
@@ -331,12 +333,20 @@ pub unsafe extern "C" fn mprotect(addr: *mut c_void, len: size_t, prot: c_int) -
     watch::diff_all("mprotect");
     let n = N_MPROTECT.fetch_add(1, SeqCst) + 1;
     let pol = POLICY.lock().unwrap().clone();
+    // the injected refusal models a TARGET page the system will not make writable: requests that concern the library's own
+    // trampolines (W^X hygiene after writing them), or that ask for no write access, are not counted and never refused
+    let own = {
+        let pg = (addr as u64) & !0xfff;
+        OWNED.lock().unwrap().iter().any(|(b, l)| pg < ((*b + *l + 0xfff) & !0xfff) && pg + 4096 > (*b & !0xfff))
+    };
+    let counts = (prot & libc::PROT_WRITE) != 0 && !own;
+    let nw = if counts { N_MPROTECT_W.fetch_add(1, SeqCst) + 1 } else { 0 };
     // a page that never becomes writable (a sealed / file-backed read-only mapping): every request fails
     let dp = DENY_PAGE.load(SeqCst);
     let denied = dp != 0 && (prot & libc::PROT_WRITE) != 0 && (addr as u64) < dp + 4096 && (addr as u64 + len as u64) > dp;
     let r = match &pol {
         _ if denied => -libc::EACCES,
-        Some(p) if p.mprotect_fail_at != 0 && n == p.mprotect_fail_at => -libc::EACCES,
+        Some(p) if p.mprotect_fail_at != 0 && counts && nw == p.mprotect_fail_at => -libc::EACCES,
         _ => raw_mprotect(addr as u64, len, prot),
     };
     emit(json!({"ev":"Mprotect","addr":a8(addr as u64),"len":len,"prot":prot,"ret":r,"n":n,
